@@ -57,6 +57,11 @@ CHECKS = {
          "Sequences of <=2 (quick) / <=3 (thorough) packets over per-layer header-field alphabets (every field over {0,1,boundary-1,boundary,boundary+1,max}, bodies shorter/equal/longer than declared, packets sharing an id so that later ones contradict earlier ones) are injected by a raw peer into fragswarm, mbapp (fast path on/off), the five multiplexers (tells and asks) and p2pkeswarm; a panic in any library goroutine, more than 64 MiB allocated, a killed worker process or a valid message no longer being delivered afterwards is a violation. Grids: all demux functions, six address parsers, PeerID.UnmarshalText, x509.ParsePublicKey (every single-byte mutation/truncation of a valid key), the QUIC frame reader, DHT handlers, and p2pke Sessions/Channels fed every genuine message with every byte zeroed/incremented/truncated at every handshake stage.",
          "Longer sequences and field values outside the alphabets; QUIC/SSH stacks only through their parsers.",
          "5/C08", "gosched"),
+ "C09": ("model_checking",
+         "exhaustive configuration x length grid on the real stacks (instrumented code, deterministic schedule)",
+         "For mem, frag (3 inner MTUs x 5 declared MTUs around 255 parts), mbapp (fast path on/off; 65535-part boundary in thorough), five mux kinds x channel ids (empty/1/127/128-byte strings; 0,127,128,2^14,2^63,2^64-1), p2pke, multi-transport swarms with equal and different MTUs and three nestings, every payload length in {0,1,MTU-1,MTU,MTU+1,MTU+2,2*MTU} and around each layer's part-count boundaries is told and (where offered) asked: at or below MTU() no error satisfying IsErrMTUExceeded may come from any layer and what is delivered must be the complete payload; above MTU() the call must fail with the MTU error and nothing may be delivered.",
+         "UDP/QUIC/SSH are outside the scheduler; stacks whose handshake does not fit the inner MTU are not configured. Known finding: multiswarm over transports with different MTUs.",
+         "5/C09", "gosched"),
  "C10": ("model_checking",
          "exhaustive enumeration (deviation-bounded DFS under the controlled scheduler) of fragment delivery orders, duplications and losses with the harness as the inner transport of the real fragswarm/mbapp",
          "Genuine fragments of 2-4 messages (2 and 3 parts, equal part counts, same ids from different sources, several ids from one source) are captured from real sender instances; an adversary thread then delivers them to a real receiver instance in every order (quick) or every order within a reorder budget (largest thorough configurations), duplicating or dropping up to 1-3 fragments, with 1 or 2 receive workers; every payload the receiver yields must be byte-identical to a message of the source it is attributed to and a message that lost a fragment must never be delivered.",
